@@ -25,11 +25,12 @@ void *__real_calloc(size_t, size_t);
 void *__real_realloc(void *, size_t);
 
 /* --------------------------------------------------------------- allocator */
-typedef struct { void *p; size_t sz; long idx; } blk_t;
+typedef struct { void *p; size_t sz; long idx; int app; } blk_t;
 #define MAXBLK 65536
 static blk_t blks[MAXBLK];
 static int nblk;
-static long alloc_idx, badfree, peak, cur;
+static long alloc_idx, badfree, peak, cur, stolen, badptr;
+static volatile int in_app;    /* the application (harness) itself is allocating / freeing */
 static int tracking;
 static int plan_mode;            /* 0 none, 1 at k1, 2 from k1, 3 pair k1,k2 */
 static long plan_k1, plan_k2;
@@ -49,7 +50,7 @@ static int should_fail(void)
 static void note(void *p, size_t sz)
 {
   if (nblk >= MAXBLK) { fprintf(stderr, "harness: block table full\n"); _exit(3); }
-  blks[nblk].p = p; blks[nblk].sz = sz; blks[nblk].idx = alloc_idx - 1; nblk++;
+  blks[nblk].p = p; blks[nblk].sz = sz; blks[nblk].idx = alloc_idx - 1; blks[nblk].app = in_app; nblk++;
   cur += (long)sz; if (cur > peak) peak = cur;
   if (sz > biggest) biggest = sz;
 }
@@ -66,6 +67,7 @@ void *__wrap_malloc(size_t sz)
 {
   void *p;
   if (!tracking) return __real_malloc(sz);
+  if (in_app) { p = __real_malloc(sz ? sz : 1); if (p) note(p, sz); return p; }   /* the application's own buffers never fail */
   if (should_fail()) return NULL;
   if (sz > ((size_t)1 << 31)) return NULL;          /* never really grab > 2 GB */
   p = __real_malloc(sz ? sz : 1);
@@ -95,13 +97,33 @@ void *__wrap_realloc(void *q, size_t s)
   return p;
 }
 
+static int blk_index(void *p)
+{
+  int i;
+  for (i = nblk - 1; i >= 0; i--) if (blks[i].p == p) return i;
+  return -1;
+}
+
 void __wrap_free(void *p)
 {
+  int i;
   if (!tracking) { __real_free(p); return; }
   if (!p) return;
+  i = blk_index(p);
+  if (i >= 0 && blks[i].app && !in_app) { stolen++; return; }   /* the LIBRARY frees a block the application owns: counted, not executed */
   if (!forget(p)) { badfree++; return; }     /* double / invalid free: counted, not executed */
   __real_free(p);
 }
+
+/* ownership bookkeeping of the application side */
+static void adopt(void *p) { int i = p ? blk_index(p) : -1; if (i >= 0) blks[i].app = 1; }     /* handed over to the application */
+static void lend(void *p) { int i = p ? blk_index(p) : -1; if (i >= 0) blks[i].app = 0; }      /* passed back, library may realloc */
+static int ptr_ok(void *p) { if (!p || blk_index(p) >= 0) return 1; badptr++; return 0; }    /* NULL or a live block */
+static void use_ptr(void *p) { if (p && ptr_ok(p)) ((volatile unsigned char *)p)[0] ^= 0x5a; } /* write through it */
+static void app_free(void *p) { if (!ptr_ok(p)) return; in_app = 1; free(p); in_app = 0; }
+static void app_tjfree(void *p) { if (!ptr_ok(p)) return; in_app = 1; tj3Free(p); in_app = 0; }
+static void *app_alloc(size_t n) { void *p; in_app = 1; p = tj3Alloc(n); in_app = 0; return p; }
+static void *app_malloc(size_t n) { void *p; in_app = 1; p = malloc(n); in_app = 0; return p; }
 
 /* ------------------------------------------------------------ test images */
 #define IW 53
@@ -181,6 +203,7 @@ bail2:
   return rc;
 }
 
+static void prep_big(void) { }
 static void must(int ok, const char *what) { if (!ok) { fprintf(stderr, "harness setup failed: %s\n", what); _exit(4); } }
 
 static void prep(jpg_t *j, cparm p)
@@ -423,6 +446,7 @@ SX(s_xform_icc_norealloc, &JICC, 1, { TJXOP_NONE, 0 }, { 0, 0 }, 0, 0, 1, 1)
 SX(s_xform_12bit, &J12, 1, { TJXOP_ROT90, 0 }, { TJXOPT_TRIM, 0 }, 0, 0, 0, 0)
 SX(s_xform_lossless_src, &JLL8, 1, { TJXOP_NONE, 0 }, { 0, 0 }, 0, 0, 0, 0)
 
+static char f_junk[1024], f_trunc[1024];
 static char f_ppm8[1024], f_pgm8[1024], f_bmp8[1024], f_ppm12[1024], f_ppm16[1024], f_out[1024], f_huge[1024], f_ppm_lim[1024], f_bmp_lim[1024];
 
 static int s_load8(const char *fn, int pfwant)
@@ -633,8 +657,275 @@ done:
   return rc;
 }
 
-typedef struct { const char *name; int (*fn)(void); } scn_t;
-#define S(x) { #x, s_##x }
+
+/* ====================================================================== */
+/* (b) failed calls that do NOT longjmp, (c) sequences on one object        */
+static const char *scn_arg = "";          /* parameter string of the running family scenario */
+static unsigned char bigicc[10000];
+
+#define NOHANDLE() do { snprintf(msgbuf, sizeof(msgbuf), "%s", tj3GetErrorStr(NULL)); return -1; } while (0)
+#define UNEXPECTED(what) do { snprintf(msgbuf, sizeof(msgbuf), "EXPECTED ERROR NOT REPORTED: %s", what); rc = 2; goto bail; } while (0)
+
+static int filt_fail_tid, filt_fail_after, filt_calls;
+static int my_filter(short *coeffs, tjregion a, tjregion pl, int comp, int tid, tjtransform *t)
+{
+  (void)coeffs; (void)a; (void)pl; (void)comp; (void)t;
+  if (tid == filt_fail_tid && filt_calls++ >= filt_fail_after) return -1;
+  return 0;
+}
+
+/* arg "n fail later icc buf": n transforms; the custom filter of transform #fail returns -1 (at its first call or, later=1,
+   at its 4th); icc=1: a 10000-byte ICC profile makes the headers outgrow the initial 4096-byte buffer;
+   buf 0 = library-owned (NULL), 1 = caller-owned worst-case buffers + TJPARAM_NOREALLOC, 2 = caller-supplied 100-byte
+   buffers (reallocation allowed; the caller's own buffer stays the caller's).  After the failed call every dstBufs[i]
+   must be NULL or a live block: it is written through and freed; then the instance is used again and destroyed. */
+static int s_xf_filt(void)
+{
+  int n = 1, fail = 0, later = 0, icc_on = 0, buf = 0;
+  tjhandle h; unsigned char *dst[2] = { NULL, NULL }, *own[2] = { NULL, NULL }; size_t dn[2] = { 0, 0 };
+  tjtransform t[2]; int rc = 0, i, r;
+  sscanf(scn_arg, "%d %d %d %d %d", &n, &fail, &later, &icc_on, &buf);
+  h = tj3Init(TJINIT_TRANSFORM);
+  if (!h) NOHANDLE();
+  memset(t, 0, sizeof(t));
+  for (i = 0; i < n; i++) { t[i].op = i ? TJXOP_VFLIP : TJXOP_NONE; t[i].options = TJXOPT_TRIM; t[i].customFilter = my_filter; }
+  filt_fail_tid = fail; filt_fail_after = later ? 3 : 0; filt_calls = 0;
+  if (icc_on && tj3SetICCProfile(h, bigicc, sizeof(bigicc)) < 0) FAIL(h);
+  if (buf == 1) {
+    if (tj3Set(h, TJPARAM_NOREALLOC, 1) < 0) FAIL(h);
+    if (tj3DecompressHeader(h, J420.buf, J420.size) < 0) FAIL(h);
+    for (i = 0; i < n; i++) {
+      dn[i] = tj3TransformBufSize(h, &t[i]);
+      if (dn[i] == 0) FAIL(h);
+      own[i] = dst[i] = (unsigned char *)app_alloc(dn[i]);
+    }
+  } else if (buf == 2) {
+    for (i = 0; i < n; i++) { own[i] = dst[i] = (unsigned char *)app_alloc(100); dn[i] = 100; }
+  }
+  r = tj3Transform(h, J420.buf, J420.size, n, dst, dn, t);
+  for (i = 0; i < 2; i++) {            /* whatever happened: the caller owns dstBufs[i] now */
+    use_ptr(dst[i]);
+    if (dst[i] != own[i]) { adopt(dst[i]); app_tjfree(dst[i]); }
+    app_tjfree(own[i]);
+    dst[i] = own[i] = NULL; dn[i] = 0;
+  }
+  if (r < 0 && fail < 0) FAIL(h);
+  if (r == 0 && fail >= 0 && fail < n) UNEXPECTED("custom filter returned -1 but tj3Transform succeeded");
+  if (r < 0 && !strstr(tj3GetErrorStr(h), "custom filter")) FAIL(h);        /* some injected failure came first */
+  /* the instance must still work */
+  if (buf == 1 && tj3Set(h, TJPARAM_NOREALLOC, 0) < 0) FAIL(h);
+  t[0].customFilter = NULL;
+  r = tj3Transform(h, J420.buf, J420.size, 1, dst, dn, t);
+  use_ptr(dst[0]); adopt(dst[0]); app_tjfree(dst[0]); dst[0] = NULL;
+  if (r < 0) FAIL(h);
+bail:
+  tj3Destroy(h);
+  return rc;
+}
+
+/* arg = name of a failing call that ends in THROW (plain goto bailout, no longjmp) after resources were acquired; afterwards
+   the instance is used successfully and destroyed */
+static int s_err(void)
+{
+  const char *k = scn_arg;
+  int isx = !strncmp(k, "xform", 5), isc = !strncmp(k, "comp", 4) || !strncmp(k, "encyuv", 6) || !strncmp(k, "load", 4);
+  tjhandle h = tj3Init(isx ? TJINIT_TRANSFORM : isc ? TJINIT_COMPRESS : TJINIT_DECOMPRESS);
+  int rc = 0, r = 0, w = 0, hh = 0, pf = TJPF_RGB;
+  unsigned char *out = NULL, *dstb = NULL, *img = NULL; size_t on = 0;
+  unsigned char *xd[1] = { NULL }; size_t xn[1] = { 0 }; tjtransform t; const char *want = "";
+  if (!h) NOHANDLE();
+  memset(&t, 0, sizeof(t));
+  dstb = (unsigned char *)app_alloc((size_t)BW * BH * 4 + 4096);
+  if (!strcmp(k, "comp_nosubsamp")) { r = tj3Compress8(h, rgb8, IW, 0, IH, TJPF_RGB, &out, &on); want = "must be specified"; }
+  else if (!strcmp(k, "comp_16_lossy")) {
+    if (tj3Set(h, TJPARAM_SUBSAMP, TJSAMP_444) < 0 || tj3Set(h, TJPARAM_QUALITY, 80) < 0) FAIL(h);
+    r = tj3Compress16(h, rgb16, IW, 0, IH, TJPF_RGB, &out, &on); want = "";
+  } else if (!strcmp(k, "comp_after_ok_then_bad")) {
+    /* a good image into a library buffer, then a failing call that is handed the same buffer */
+    if (tj3Set(h, TJPARAM_SUBSAMP, TJSAMP_444) < 0 || tj3Set(h, TJPARAM_QUALITY, 80) < 0) FAIL(h);
+    if (tj3Compress8(h, rgb8, IW, 0, IH, TJPF_RGB, &out, &on) < 0) FAIL(h);
+    r = tj3Compress16(h, rgb16, IW, 0, IH, TJPF_RGB, &out, &on); want = "";
+  } else if (!strcmp(k, "encyuv_cmyk")) {
+    if (tj3Set(h, TJPARAM_SUBSAMP, TJSAMP_420) < 0) FAIL(h);
+    r = tj3EncodeYUV8(h, cmyk8, IW, 0, IH, TJPF_CMYK, dstb, 4); want = "CMYK";
+  } else if (!strcmp(k, "dec_maxpixels")) {
+    if (tj3Set(h, TJPARAM_MAXPIXELS, 10) < 0) FAIL(h);
+    r = tj3Decompress8(h, J420.buf, J420.size, dstb, 0, TJPF_RGB); want = "too large";
+    if (tj3Set(h, TJPARAM_MAXPIXELS, 0) < 0) FAIL(h);
+  } else if (!strcmp(k, "dec_crop_other_image")) {
+    /* cropping region valid for the 96x96 image, then a 53x37 image is decompressed */
+    tjregion cr = { 0, 40, 48, 50 };
+    prep_big();
+    if (tj3DecompressHeader(h, JBIG.buf, JBIG.size) < 0) FAIL(h);
+    if (tj3SetCroppingRegion(h, cr) < 0) FAIL(h);
+    r = tj3Decompress8(h, J444P.buf, J444P.size, dstb, 0, TJPF_RGB); want = "ropping region";
+    { tjregion none = { 0, 0, 0, 0 }; if (tj3SetCroppingRegion(h, none) < 0) FAIL(h); }
+  } else if (!strcmp(k, "dec_lossless_crop")) {
+    tjregion cr = { 8, 0, 16, 16 };
+    if (tj3DecompressHeader(h, JLL8.buf, JLL8.size) < 0) FAIL(h);
+    r = tj3SetCroppingRegion(h, cr); want = "lossless";
+  } else if (!strcmp(k, "dec_badscale")) {
+    tjscalingfactor sf = { 3, 7 };
+    r = tj3SetScalingFactor(h, sf); want = "scaling factor";
+  } else if (!strcmp(k, "dec2yuv_cmyk")) { r = tj3DecompressToYUV8(h, JCMYK.buf, JCMYK.size, dstb, 4); want = "3 or fewer components"; }
+  else if (!strcmp(k, "dec2yuv_maxpixels")) {
+    if (tj3Set(h, TJPARAM_MAXPIXELS, 10) < 0) FAIL(h);
+    r = tj3DecompressToYUV8(h, J420.buf, J420.size, dstb, 4); want = "too large";
+    if (tj3Set(h, TJPARAM_MAXPIXELS, 0) < 0) FAIL(h);
+  } else if (!strcmp(k, "decodeyuv_cmyk")) {
+    if (tj3Set(h, TJPARAM_SUBSAMP, TJSAMP_420) < 0) FAIL(h);
+    r = tj3DecodeYUV8(h, yuv420, 4, dstb, IW, 0, IH, TJPF_CMYK); want = "CMYK";
+  } else if (!strcmp(k, "geticc_none")) {
+    unsigned char *ic = NULL; size_t icn = 0;
+    if (tj3DecompressHeader(h, J420.buf, J420.size) < 0) FAIL(h);
+    r = tj3GetICCProfile(h, &ic, &icn); use_ptr(ic); adopt(ic); app_tjfree(ic);
+    want = ""; if (r == 0 && (ic != NULL || icn != 0)) UNEXPECTED("ICC profile returned for an image without one");
+    r = -1;
+  } else if (!strcmp(k, "header_garbage")) {
+    static const unsigned char junk[64] = { 0xFF, 0xD8, 0xFF, 0xC0, 0, 4, 1, 2, 3 };
+    r = tj3DecompressHeader(h, junk, sizeof(junk)); want = "";
+  } else if (!strcmp(k, "xform_badop")) { t.op = 99; r = tj3Transform(h, J420.buf, J420.size, 1, xd, xn, &t); want = "Invalid transform operation"; t.op = 0; }
+  else if (!strcmp(k, "xform_badcrop")) { t.options = TJXOPT_CROP; t.r.x = -8; t.r.w = 8; t.r.h = 8; r = tj3Transform(h, J420.buf, J420.size, 1, xd, xn, &t); want = "Invalid cropping region"; }
+  else if (!strcmp(k, "xform_cropalign")) { t.options = TJXOPT_CROP; t.r.x = 5; t.r.y = 3; t.r.w = 8; t.r.h = 8; r = tj3Transform(h, J420.buf, J420.size, 1, xd, xn, &t); want = "multiple of"; }
+  else if (!strcmp(k, "xform_cropexceeds")) { t.options = TJXOPT_CROP; t.r.x = 48; t.r.y = 32; t.r.w = 32; t.r.h = 32; r = tj3Transform(h, J420.buf, J420.size, 1, xd, xn, &t); want = ""; }
+  else if (!strcmp(k, "xform_maxpixels")) {
+    if (tj3Set(h, TJPARAM_MAXPIXELS, 10) < 0) FAIL(h);
+    r = tj3Transform(h, J420.buf, J420.size, 1, xd, xn, &t); want = "too large";
+    if (tj3Set(h, TJPARAM_MAXPIXELS, 0) < 0) FAIL(h);
+  } else if (!strcmp(k, "xform_notperfect_second")) {
+    /* two transforms, the second one is not perfect: THROW after the first workspace was requested */
+    tjtransform tt[2]; unsigned char *d2[2] = { NULL, NULL }; size_t n2[2] = { 0, 0 };
+    memset(tt, 0, sizeof(tt)); tt[1].op = TJXOP_HFLIP; tt[1].options = TJXOPT_PERFECT;
+    r = tj3Transform(h, J420.buf, J420.size, 2, d2, n2, tt); want = "not perfect";
+    use_ptr(d2[0]); use_ptr(d2[1]); adopt(d2[0]); adopt(d2[1]); app_tjfree(d2[0]); app_tjfree(d2[1]);
+  } else if (!strcmp(k, "load_nofile")) { img = tj3LoadImage8(h, "/nonexistent/c14.ppm", &w, 1, &hh, &pf); r = img ? 0 : -1; want = "open input file"; }
+  else if (!strcmp(k, "load_badalign")) { img = tj3LoadImage8(h, f_ppm8, &w, 3, &hh, &pf); r = img ? 0 : -1; want = "power of 2"; }
+  else if (!strcmp(k, "load_unsupported")) { img = tj3LoadImage8(h, f_junk, &w, 1, &hh, &pf); r = img ? 0 : -1; want = "nsupported file type"; }
+  else if (!strcmp(k, "load_truncated")) { img = tj3LoadImage8(h, f_trunc, &w, 1, &hh, &pf); r = img ? 0 : -1; want = ""; }
+  else if (!strcmp(k, "save_badpath")) { r = tj3SaveImage8(h, "/nonexistent/dir/out.ppm", rgb8, IW, 0, IH, TJPF_RGB); want = "open output file"; }
+  else { snprintf(msgbuf, sizeof(msgbuf), "unknown err scenario %s", k); rc = 3; goto bail; }
+  /* the caller owns whatever the failed call left in its output pointers */
+  use_ptr(out); use_ptr(xd[0]); use_ptr(img);
+  if (r == 0 && strcmp(k, "load_truncated")) UNEXPECTED(k);
+  if (r < 0 && want[0] && !strstr(tj3GetErrorStr(h), want)) FAIL(h);       /* an injected failure came first */
+  adopt(img); app_tjfree(img); img = NULL;
+  adopt(xd[0]); app_tjfree(xd[0]); xd[0] = NULL; xn[0] = 0;
+  /* follow-up: the instance still works, with the buffer the failed call may have left */
+  if (isx) {
+    memset(&t, 0, sizeof(t));
+    if (tj3Transform(h, J420.buf, J420.size, 1, xd, xn, &t) < 0) FAIL(h);
+    use_ptr(xd[0]);
+  } else if (isc) {
+    if (tj3Set(h, TJPARAM_SUBSAMP, TJSAMP_420) < 0 || tj3Set(h, TJPARAM_QUALITY, 70) < 0) FAIL(h);
+    lend(out);
+    if (tj3Compress8(h, rgb8, IW, 0, IH, TJPF_RGB, &out, &on) < 0) FAIL(h);
+    use_ptr(out);
+  } else {
+    if (tj3Decompress8(h, J420.buf, J420.size, dstb, 0, TJPF_RGB) < 0) FAIL(h);
+  }
+bail:
+  adopt(out); app_tjfree(out); adopt(xd[0]); app_tjfree(xd[0]); adopt(img); app_tjfree(img);
+  app_tjfree(dstb);
+  tj3Destroy(h);
+  return rc;
+}
+
+/* (c) libjpeg API: several images through ONE compression object with jpeg_mem_dest.  arg = pairs of characters:
+   L library-allocated buffer (NULL), S / M caller-supplied 100 / 4096 bytes (outgrown), B caller-supplied 128 KB (enough);
+   f the application frees the result before the next image, k it keeps all results until the end. */
+static unsigned char *sq_out, *sq_own; static unsigned long sq_n;
+static unsigned char *sq_kept[32]; static int sq_nkept;
+static void sq_settle(int keep)
+{
+  if (sq_out != sq_own) adopt(sq_out);       /* a buffer the library allocated is handed over with the result */
+  use_ptr(sq_out); use_ptr(sq_own);
+  if (keep) {
+    if (sq_out && sq_out != sq_own && sq_nkept < 32) sq_kept[sq_nkept++] = sq_out;
+    if (sq_own && sq_nkept < 32) sq_kept[sq_nkept++] = sq_own;
+  } else {
+    if (sq_out != sq_own) app_free(sq_out);
+    app_free(sq_own);
+  }
+  sq_out = sq_own = NULL; sq_n = 0;
+}
+static int s_lj_seq(void)
+{
+  struct jpeg_compress_struct ci; struct my_err je;
+  volatile int rc = 0, dest_set = 0, img = 0; int i;
+  const char *pat = scn_arg;
+  sq_out = sq_own = NULL; sq_n = 0; sq_nkept = 0;
+  memset(&ci, 0, sizeof(ci));
+  ci.err = jpeg_std_error(&je.pub); je.pub.error_exit = lj_exit; je.pub.emit_message = lj_emit;
+  if (setjmp(je.jb)) { rc = -1; if (dest_set) (*ci.dest->term_destination) (&ci); goto done; }
+  jpeg_create_compress(&ci);
+  for (img = 0; pat[2 * img] && pat[2 * img + 1]; img++) {
+    char mode = pat[2 * img];
+    unsigned long sz = mode == 'S' ? 100 : mode == 'M' ? 4096 : mode == 'B' ? (1 << 17) : 0;
+    if (sz) { sq_own = (unsigned char *)app_malloc(sz); sq_out = sq_own; sq_n = sz; }
+    jpeg_mem_dest(&ci, &sq_out, &sq_n); dest_set = 1;
+    ci.image_width = BW; ci.image_height = BH; ci.input_components = 3; ci.in_color_space = JCS_RGB;
+    jpeg_set_defaults(&ci);
+    jpeg_set_quality(&ci, img & 1 ? 95 : 100, TRUE);
+    jpeg_start_compress(&ci, TRUE);
+    while (ci.next_scanline < ci.image_height) { JSAMPROW row = &big8[ci.next_scanline * BW * 3]; jpeg_write_scanlines(&ci, &row, 1); }
+    jpeg_finish_compress(&ci); dest_set = 0;
+    if (sq_n < 1000) { snprintf(msgbuf, sizeof(msgbuf), "implausible JPEG size %lu", sq_n); rc = 2; }
+    sq_settle(pat[2 * img + 1] == 'k');
+  }
+done:
+  sq_settle(0);
+  for (i = 0; i < sq_nkept; i++) app_free(sq_kept[i]);
+  sq_nkept = 0;
+  jpeg_destroy_compress(&ci);
+  return rc;
+}
+
+/* the same with the TurboJPEG API on one compression instance: L NULL buffer, S caller-supplied 100-byte buffer
+   (reallocation allowed), N worst-case caller buffer + TJPARAM_NOREALLOC, R the previous result is passed in again */
+static int s_tj_seq(void)
+{
+  tjhandle h = tj3Init(TJINIT_COMPRESS);
+  const char *pat = scn_arg; int rc = 0, img, i;
+  unsigned char *prev = NULL; size_t prevn = 0;
+  sq_nkept = 0;
+  if (!h) NOHANDLE();
+  if (tj3Set(h, TJPARAM_SUBSAMP, TJSAMP_444) < 0) FAIL(h);
+  for (img = 0; pat[2 * img] && pat[2 * img + 1]; img++) {
+    char mode = pat[2 * img]; int keep = pat[2 * img + 1] == 'k', r;
+    unsigned char *own = NULL, *out = NULL; size_t on = 0;
+    if (tj3Set(h, TJPARAM_QUALITY, img & 1 ? 90 : 100) < 0) FAIL(h);
+    if (tj3Set(h, TJPARAM_NOREALLOC, mode == 'N') < 0) FAIL(h);
+    if (mode == 'S') { own = out = (unsigned char *)app_alloc(100); on = 100; }
+    else if (mode == 'N') { on = tj3JPEGBufSize(BW, BH, TJSAMP_444); own = out = (unsigned char *)app_alloc(on); }
+    else if (mode == 'R' && prev) {
+      /* the previous result goes back to the library, which may reallocate it */
+      for (i = 0; i < sq_nkept; i++) if (sq_kept[i] == prev) sq_kept[i] = sq_kept[--sq_nkept];
+      out = prev; on = prevn; lend(out); prev = NULL;
+    }
+    r = tj3Compress8(h, big8, BW, 0, BH, TJPF_RGB, &out, &on);
+    if (out != own) adopt(out);
+    use_ptr(out); use_ptr(own);
+    if (keep && r == 0) {
+      if (out && out != own && sq_nkept < 32) sq_kept[sq_nkept++] = out;
+      if (own && sq_nkept < 32) sq_kept[sq_nkept++] = own;
+      prev = out; prevn = on;
+    } else {
+      if (out != own) app_tjfree(out);
+      app_tjfree(own);
+      prev = NULL;
+    }
+    if (r < 0) FAIL(h);
+  }
+bail:
+  for (i = 0; i < sq_nkept; i++) app_tjfree(sq_kept[i]);
+  sq_nkept = 0;
+  tj3Destroy(h);
+  return rc;
+}
+
+typedef struct { const char *name; int (*fn)(void); const char *arg; } scn_t;
+#define S(x) { #x, s_##x, "" }
+#define F(nm, fn, arg) { nm, fn, arg }
 static const scn_t scns[] = {
   S(init_c), S(init_d), S(init_t),
   S(comp8_420), S(comp8_444_prog), S(comp8_gray_arith), S(comp8_422_opt), S(comp8_ll), S(comp12_420), S(comp12_prog_opt),
@@ -650,6 +941,34 @@ static const scn_t scns[] = {
   S(save8_ppm), S(save8_bmp), S(save12_ppm), S(save16_ppm),
   S(lj_comp), S(lj_comp_prog_opt_icc), S(lj_comp_arith), S(lj_comp12), S(lj_comp_libbuf),
   S(lj_dec), S(lj_dec_icc), S(lj_dec_buffered_prog), S(lj_dec_quant1), S(lj_dec_quant2), S(lj_coef), S(lj_dec_reuse),
+  /* custom filter returning -1: "n fail later icc buf" */
+  F("xf_filt_1f0_small_lib", s_xf_filt, "1 0 0 0 0"), F("xf_filt_1f0_icc_lib", s_xf_filt, "1 0 0 1 0"), F("xf_filt_1f0late_icc_lib", s_xf_filt, "1 0 1 1 0"),
+  F("xf_filt_1f0_small_noreal", s_xf_filt, "1 0 0 0 1"), F("xf_filt_1f0_icc_noreal", s_xf_filt, "1 0 0 1 1"),
+  F("xf_filt_1f0_small_own", s_xf_filt, "1 0 0 0 2"), F("xf_filt_1f0_icc_own", s_xf_filt, "1 0 1 1 2"),
+  F("xf_filt_2f0_icc_lib", s_xf_filt, "2 0 0 1 0"), F("xf_filt_2f1_icc_lib", s_xf_filt, "2 1 0 1 0"), F("xf_filt_2f1late_small_lib", s_xf_filt, "2 1 1 0 0"),
+  F("xf_filt_2f1_icc_noreal", s_xf_filt, "2 1 0 1 1"), F("xf_filt_2f1_icc_own", s_xf_filt, "2 1 0 1 2"), F("xf_filt_2f0_small_own", s_xf_filt, "2 0 0 0 2"),
+  F("xf_filt_2none_icc_lib", s_xf_filt, "2 -1 0 1 0"), F("xf_filt_1none_icc_own", s_xf_filt, "1 -1 0 1 2"),
+  /* THROW paths */
+  F("err_comp_nosubsamp", s_err, "comp_nosubsamp"), F("err_comp_16_lossy", s_err, "comp_16_lossy"), F("err_comp_after_ok_then_bad", s_err, "comp_after_ok_then_bad"),
+  F("err_encyuv_cmyk", s_err, "encyuv_cmyk"), F("err_dec_maxpixels", s_err, "dec_maxpixels"), F("err_dec_crop_other_image", s_err, "dec_crop_other_image"),
+  F("err_dec_lossless_crop", s_err, "dec_lossless_crop"), F("err_dec_badscale", s_err, "dec_badscale"), F("err_dec2yuv_cmyk", s_err, "dec2yuv_cmyk"),
+  F("err_dec2yuv_maxpixels", s_err, "dec2yuv_maxpixels"), F("err_decodeyuv_cmyk", s_err, "decodeyuv_cmyk"), F("err_geticc_none", s_err, "geticc_none"),
+  F("err_header_garbage", s_err, "header_garbage"), F("err_xform_badop", s_err, "xform_badop"), F("err_xform_badcrop", s_err, "xform_badcrop"),
+  F("err_xform_cropalign", s_err, "xform_cropalign"), F("err_xform_cropexceeds", s_err, "xform_cropexceeds"), F("err_xform_maxpixels", s_err, "xform_maxpixels"),
+  F("err_xform_notperfect_second", s_err, "xform_notperfect_second"), F("err_load_nofile", s_err, "load_nofile"), F("err_load_badalign", s_err, "load_badalign"),
+  F("err_load_unsupported", s_err, "load_unsupported"), F("err_load_truncated", s_err, "load_truncated"), F("err_save_badpath", s_err, "save_badpath"),
+  /* one libjpeg compression object, several images */
+  F("lj_seq_LfLf", s_lj_seq, "LfLf"), F("lj_seq_LkLk", s_lj_seq, "LkLk"), F("lj_seq_LfSf", s_lj_seq, "LfSf"), F("lj_seq_LkSf", s_lj_seq, "LkSf"),
+  F("lj_seq_LfSk", s_lj_seq, "LfSk"), F("lj_seq_LkSk", s_lj_seq, "LkSk"), F("lj_seq_LfBf", s_lj_seq, "LfBf"), F("lj_seq_LkBk", s_lj_seq, "LkBk"),
+  F("lj_seq_SfLf", s_lj_seq, "SfLf"), F("lj_seq_SkLk", s_lj_seq, "SkLk"), F("lj_seq_SfSf", s_lj_seq, "SfSf"), F("lj_seq_SkSk", s_lj_seq, "SkSk"),
+  F("lj_seq_SfBf", s_lj_seq, "SfBf"), F("lj_seq_BfSf", s_lj_seq, "BfSf"), F("lj_seq_BkLk", s_lj_seq, "BkLk"), F("lj_seq_BfBf", s_lj_seq, "BfBf"),
+  F("lj_seq_LfMf", s_lj_seq, "LfMf"), F("lj_seq_LkMk", s_lj_seq, "LkMk"), F("lj_seq_MfMf", s_lj_seq, "MfMf"), F("lj_seq_MkLf", s_lj_seq, "MkLf"),
+  F("lj_seq_LfSfLf", s_lj_seq, "LfSfLf"), F("lj_seq_LkSkLk", s_lj_seq, "LkSkLk"), F("lj_seq_SkLkSf", s_lj_seq, "SkLkSf"), F("lj_seq_LkLkSfBk", s_lj_seq, "LkLkSfBk"),
+  F("lj_seq_BfSfSfLf", s_lj_seq, "BfSfSfLf"), F("lj_seq_LfLkMkSk", s_lj_seq, "LfLkMkSk"),
+  /* one TurboJPEG compression instance, several images */
+  F("tj_seq_LfLf", s_tj_seq, "LfLf"), F("tj_seq_LkRf", s_tj_seq, "LkRf"), F("tj_seq_LkRkRf", s_tj_seq, "LkRkRf"), F("tj_seq_LfSf", s_tj_seq, "LfSf"),
+  F("tj_seq_LkSk", s_tj_seq, "LkSk"), F("tj_seq_SfLf", s_tj_seq, "SfLf"), F("tj_seq_SkRf", s_tj_seq, "SkRf"), F("tj_seq_LfNf", s_tj_seq, "LfNf"),
+  F("tj_seq_LkNkLk", s_tj_seq, "LkNkLk"), F("tj_seq_NfSfLf", s_tj_seq, "NfSfLf"), F("tj_seq_LkSkNkRf", s_tj_seq, "LkSkNkRf"),
 };
 #define NSCN ((int)(sizeof(scns) / sizeof(scns[0])))
 
@@ -658,16 +977,17 @@ static void run_scn(const scn_t *s, const char *mode, long k1, long k2)
   int rc, i; long leakbytes = 0; char firstleak[64] = "";
   plan_mode = !strcmp(mode, "at") ? 1 : !strcmp(mode, "from") ? 2 : !strcmp(mode, "pair") ? 3 : 0;
   plan_k1 = k1; plan_k2 = k2;
-  nblk = 0; alloc_idx = 0; badfree = 0; peak = 0; cur = 0; biggest = 0; msgbuf[0] = 0;
+  nblk = 0; alloc_idx = 0; badfree = 0; peak = 0; cur = 0; biggest = 0; msgbuf[0] = 0; stolen = 0; badptr = 0; in_app = 0;
   printf("begin %s %s %ld %ld\n", s->name, mode, k1, k2);
+  scn_arg = s->arg;
   tracking = 1;
   rc = s->fn();
   tracking = 0;
   for (i = 0; i < nblk; i++) leakbytes += (long)blks[i].sz;
   if (nblk) snprintf(firstleak, sizeof(firstleak), "%ld:%zu", blks[0].idx, blks[0].sz);
   for (i = 0; msgbuf[i]; i++) if (msgbuf[i] == '\n' || msgbuf[i] == '|') msgbuf[i] = ' ';
-  printf("result %s %s %ld %ld rc=%d n=%ld live=%d leakbytes=%ld firstleak=%s badfree=%ld peak=%ld | %s\n",
-         s->name, mode, k1, k2, rc, alloc_idx, nblk, leakbytes, nblk ? firstleak : "-", badfree, peak, msgbuf);
+  printf("result %s %s %ld %ld rc=%d n=%ld live=%d leakbytes=%ld firstleak=%s badfree=%ld peak=%ld stolen=%ld badptr=%ld | %s\n",
+         s->name, mode, k1, k2, rc, alloc_idx, nblk, leakbytes, nblk ? firstleak : "-", badfree, peak, stolen, badptr, msgbuf);
   for (i = 0; i < nblk; i++) __real_free(blks[i].p);
   nblk = 0;
 }
@@ -788,6 +1108,148 @@ static void limit_mem(int mb, int w, int h, const char *api)
   tj3Free(jb); __real_free(dst); __real_free(src); tj3Destroy(hc);
 }
 
+/* ---- wide images: the NON-virtual allocations alone reach a small memory limit ---- */
+typedef struct { int w, h, subsamp; unsigned char *jpg; size_t n; unsigned char *pix; } wide_t;
+static wide_t wides[8]; static int nwides;
+static wide_t *get_wide(int w, int h, int subsamp)
+{
+  int i; wide_t *x; tjhandle hc; size_t k;
+  for (i = 0; i < nwides; i++) if (wides[i].w == w && wides[i].h == h && wides[i].subsamp == subsamp) return &wides[i];
+  must(nwides < 8, "too many wide images");
+  x = &wides[nwides++]; x->w = w; x->h = h; x->subsamp = subsamp; x->jpg = NULL; x->n = 0;
+  x->pix = (unsigned char *)__real_malloc((size_t)w * h * 3);
+  must(x->pix != NULL, "wide pixels");
+  for (k = 0; k < (size_t)w * h * 3; k++) x->pix[k] = (unsigned char)((k * 7 + (k >> 9)) & 255);
+  hc = tj3Init(TJINIT_COMPRESS); must(hc != NULL, "wide init");
+  must(tj3Set(hc, TJPARAM_SUBSAMP, subsamp) == 0 && tj3Set(hc, TJPARAM_QUALITY, 20) == 0 && tj3Set(hc, TJPARAM_PROGRESSIVE, 1) == 0, "wide params");
+  must(tj3Compress8(hc, x->pix, w, 0, h, TJPF_RGB, &x->jpg, &x->n) == 0, "wide compress");
+  tj3Destroy(hc);
+  return x;
+}
+
+/* shims around the real jpeg_memory_mgr methods of one libjpeg object: record every virtual-array request and check,
+   when realize_virt_arrays returns normally under a limit M, that what it had to realize fits
+   max(M - total allocated before, one access height of every array)  (theorem C14_max_memory_honoured) */
+static struct {
+  jvirt_sarray_ptr (*req_s) (j_common_ptr, int, boolean, JDIMENSION, JDIMENSION, JDIMENSION);
+  jvirt_barray_ptr (*req_b) (j_common_ptr, int, boolean, JDIMENSION, JDIMENSION, JDIMENSION);
+  void (*realize) (j_common_ptr);
+  double need, minneed;            /* of the arrays requested since the last realize call */
+  long long r_need, r_min, r_tbefore; int r_calls, r_ok, viol;
+  int stop_after_realize; jmp_buf *stop;
+  int sample_size;
+} vm;
+static jvirt_sarray_ptr shim_req_s(j_common_ptr c, int pool, boolean pz, JDIMENSION w, JDIMENSION rows, JDIMENSION acc)
+{
+  vm.need += (double)rows * w * vm.sample_size; vm.minneed += (double)acc * w * vm.sample_size;
+  return vm.req_s(c, pool, pz, w, rows, acc);
+}
+static jvirt_barray_ptr shim_req_b(j_common_ptr c, int pool, boolean pz, JDIMENSION w, JDIMENSION rows, JDIMENSION acc)
+{
+  vm.need += (double)rows * w * sizeof(JBLOCK); vm.minneed += (double)acc * w * sizeof(JBLOCK);
+  return vm.req_b(c, pool, pz, w, rows, acc);
+}
+static void shim_realize(j_common_ptr c)
+{
+  long long tb = cur, M = c->mem->max_memory_to_use, avail = M > tb ? M - tb : 0, need = (long long)vm.need, mn = (long long)vm.minneed;
+  if (need > 0 && vm.r_calls == 0) { vm.r_need = need; vm.r_min = mn; vm.r_tbefore = tb; }
+  if (need > 0) vm.r_calls++;
+  vm.realize(c);                                  /* longjmps on error */
+  if (need > 0) vm.r_ok++;
+  if (M > 0 && need > (avail > mn ? avail : mn)) vm.viol++;
+  vm.need = vm.minneed = 0;
+  if (vm.stop_after_realize && need > 0) longjmp(*vm.stop, 2);
+}
+static void vm_install(j_common_ptr c, int sample_size, jmp_buf *stop, int stop_after)
+{
+  memset(&vm, 0, sizeof(vm));
+  vm.req_s = c->mem->request_virt_sarray; vm.req_b = c->mem->request_virt_barray; vm.realize = c->mem->realize_virt_arrays;
+  c->mem->request_virt_sarray = shim_req_s; c->mem->request_virt_barray = shim_req_b; c->mem->realize_virt_arrays = shim_realize;
+  vm.sample_size = sample_size; vm.stop = stop; vm.stop_after_realize = stop_after;
+}
+
+/* limit vmem <kind> <w> <h> <subsamp 420|444> <M bytes> <full 0|1>: libjpeg API with max_memory_to_use = M.
+   kind dec = decompress a progressive JPEG, coef = jpeg_read_coefficients, comp = progressive compression.
+   full=0: stop as soon as realize_virt_arrays has succeeded (the answer is known then) */
+static void limit_vmem(const char *kind, int w, int h, int ss, long long M, int full)
+{
+  wide_t *x = get_wide(w, h, ss == 444 ? TJSAMP_444 : TJSAMP_420);
+  struct my_err je; volatile int rc = 0; int sj;
+  static unsigned char *rowbuf; static unsigned char *outb; static unsigned long outn;
+  msgbuf[0] = 0;
+  nblk = 0; alloc_idx = 0; plan_mode = 0; peak = 0; cur = 0; badfree = 0; in_app = 0;
+  if (!rowbuf) rowbuf = (unsigned char *)__real_malloc(70000 * 4 * 2);
+  if (!outb) { outn = 64 << 20; outb = (unsigned char *)__real_malloc(outn); }
+  tracking = 1;
+  if (!strcmp(kind, "comp")) {
+    struct jpeg_compress_struct ci; unsigned char *ob = outb; unsigned long on = outn;
+    memset(&ci, 0, sizeof(ci));
+    ci.err = jpeg_std_error(&je.pub); je.pub.error_exit = lj_exit; je.pub.emit_message = lj_emit;
+    if ((sj = setjmp(je.jb)) != 0) { rc = sj == 2 ? 0 : -1; }
+    else {
+      jpeg_create_compress(&ci);
+      vm_install((j_common_ptr)&ci, 1, &je.jb, !full);
+      ci.mem->max_memory_to_use = (long)M;
+      jpeg_mem_dest(&ci, &ob, &on);           /* caller-supplied buffer: every tracked block belongs to the memory manager */
+      ci.image_width = w; ci.image_height = h; ci.input_components = 3; ci.in_color_space = JCS_RGB;
+      jpeg_set_defaults(&ci); jpeg_set_quality(&ci, 20, TRUE);
+      if (ss == 444) { ci.comp_info[0].h_samp_factor = 1; ci.comp_info[0].v_samp_factor = 1; }
+      jpeg_simple_progression(&ci);
+      jpeg_start_compress(&ci, TRUE);
+      while (ci.next_scanline < ci.image_height) { JSAMPROW row = &x->pix[(size_t)ci.next_scanline * w * 3]; jpeg_write_scanlines(&ci, &row, 1); }
+      jpeg_finish_compress(&ci);
+    }
+    jpeg_destroy_compress(&ci);
+  } else {
+    struct jpeg_decompress_struct di; JSAMPROW row = rowbuf;
+    memset(&di, 0, sizeof(di));
+    di.err = jpeg_std_error(&je.pub); je.pub.error_exit = lj_exit; je.pub.emit_message = lj_emit;
+    if ((sj = setjmp(je.jb)) != 0) { rc = sj == 2 ? 0 : -1; }
+    else {
+      jpeg_create_decompress(&di);
+      vm_install((j_common_ptr)&di, 1, &je.jb, !full);
+      di.mem->max_memory_to_use = (long)M;
+      jpeg_mem_src(&di, x->jpg, (unsigned long)x->n);
+      jpeg_read_header(&di, TRUE);
+      if (!strcmp(kind, "coef")) { (void)jpeg_read_coefficients(&di); }
+      else {
+        jpeg_start_decompress(&di);
+        while (di.output_scanline < di.output_height) jpeg_read_scanlines(&di, &row, 1);
+      }
+      jpeg_finish_decompress(&di);
+    }
+    jpeg_destroy_decompress(&di);
+  }
+  tracking = 0;
+  { int i; for (i = 0; msgbuf[i]; i++) if (msgbuf[i] == '\n' || msgbuf[i] == '|') msgbuf[i] = ' '; }
+  printf("limit vmem %s %d %d %d %lld %d rc=%d need=%lld minneed=%lld tbefore=%lld realize_calls=%d ok=%d boundviol=%d peak=%ld live=%d | %s\n",
+         kind, w, h, ss, M, full, rc, vm.r_need, vm.r_min, vm.r_tbefore, vm.r_calls, vm.r_ok, vm.viol, peak, nblk, rc < 0 ? msgbuf : "");
+  { int i; for (i = 0; i < nblk; i++) __real_free(blks[i].p); nblk = 0; }
+}
+
+/* limit wmem <mb> <w> <h> <subsamp> <api>: the same images through TurboJPEG with TJPARAM_MAXMEMORY */
+static void limit_wmem(int mb, int w, int h, int ss, const char *api)
+{
+  wide_t *x = get_wide(w, h, ss == 444 ? TJSAMP_444 : TJSAMP_420);
+  tjhandle hd; unsigned char *xo = NULL, *jb = NULL; size_t xn = 0, jn = 0; int rc; static unsigned char *dst;
+  if (!dst) dst = (unsigned char *)__real_malloc((size_t)70000 * 256 * 3);
+  must(dst != NULL, "wmem dst");
+  hd = tj3Init(!strcmp(api, "transform") ? TJINIT_TRANSFORM : !strcmp(api, "compress") ? TJINIT_COMPRESS : TJINIT_DECOMPRESS);
+  must(hd != NULL, "wmem init");
+  must(tj3Set(hd, TJPARAM_MAXMEMORY, mb) == 0, "set maxmemory");
+  nblk = 0; alloc_idx = 0; plan_mode = 0; peak = 0; cur = 0; in_app = 0;
+  tracking = 1;
+  if (!strcmp(api, "transform")) { tjtransform t; memset(&t, 0, sizeof(t)); rc = tj3Transform(hd, x->jpg, x->n, 1, &xo, &xn, &t); }
+  else if (!strcmp(api, "compress")) {
+    rc = (tj3Set(hd, TJPARAM_SUBSAMP, ss == 444 ? TJSAMP_444 : TJSAMP_420) == 0 && tj3Set(hd, TJPARAM_QUALITY, 20) == 0 &&
+          tj3Set(hd, TJPARAM_PROGRESSIVE, 1) == 0) ? tj3Compress8(hd, x->pix, w, 0, h, TJPF_RGB, &jb, &jn) : -1;
+  } else rc = tj3Decompress8(hd, x->jpg, x->n, dst, 0, TJPF_RGB);
+  tracking = 0;
+  printf("limit wmem %d %d %d %d %s rc=%d peak=%ld | %s\n", mb, w, h, ss, api, rc, peak, rc < 0 ? tj3GetErrorStr(hd) : "");
+  tracking = 1; tj3Free(xo); tj3Free(jb); tj3Destroy(hd); tracking = 0;
+  { int i; for (i = 0; i < nblk; i++) __real_free(blks[i].p); nblk = 0; }
+}
+
 /* progressive JPEGs with 1..n scans, built with the libjpeg API and a custom scan script */
 static void make_progn(void)
 {
@@ -824,7 +1286,9 @@ static void setup(const char *dir)
   make_images();
   prep(&J420, C_420); prep(&J444P, C_444P); prep(&JGRAYA, C_GRAYA); prep(&J422O, C_422O); prep(&JLL8, C_LL8);
   prep(&J12, C_12); prep(&JLL12, C_LL12); prep(&JLL16, C_LL16); prep(&JICC, C_ICC); prep(&J440, C_440); prep(&JCMYK, C_CMYK);
+  prep(&JBIG, C_BIG);
   make_progn();
+  for (i = 0; i < sizeof(bigicc); i++) bigicc[i] = (unsigned char)(i * 13 + 5);
   { tjhandle h = tj3Init(TJINIT_COMPRESS); must(h != NULL, "init");
     must(tj3Set(h, TJPARAM_SUBSAMP, TJSAMP_420) == 0, "subsamp");
     yuv420size = tj3YUVBufSize(IW, 4, IH, TJSAMP_420); yuv420 = (unsigned char *)__real_malloc(yuv420size);
@@ -832,6 +1296,9 @@ static void setup(const char *dir)
   snprintf(f_ppm8, sizeof(f_ppm8), "%s/in8.ppm", dir); snprintf(f_pgm8, sizeof(f_pgm8), "%s/in8.pgm", dir);
   snprintf(f_bmp8, sizeof(f_bmp8), "%s/in8.bmp", dir); snprintf(f_ppm12, sizeof(f_ppm12), "%s/in12.ppm", dir);
   snprintf(f_ppm16, sizeof(f_ppm16), "%s/in16.ppm", dir); snprintf(f_out, sizeof(f_out), "%s/out", dir);
+  snprintf(f_junk, sizeof(f_junk), "%s/junk.xyz", dir); snprintf(f_trunc, sizeof(f_trunc), "%s/trunc.ppm", dir);
+  wr(f_junk, "XYZ this is not an image file\n", 30);
+  wr(f_trunc, "P6\n40 30\n255\n0123456789", 21);
   snprintf(f_ppm_lim, sizeof(f_ppm_lim), "%s/lim.pgm", dir); snprintf(f_bmp_lim, sizeof(f_bmp_lim), "%s/lim.bmp", dir);
   { tjhandle h = tj3Init(TJINIT_DECOMPRESS); must(h != NULL, "init");
     must(tj3SaveImage8(h, f_ppm8, rgb8, IW, 0, IH, TJPF_RGB) == 0, "save ppm");
@@ -863,9 +1330,14 @@ int main(int argc, char **argv)
         else if (!strncmp(n, "comp", 4) || !strcmp(n, "encyuv")) t = 'c';
         else if (!strncmp(n, "dec", 3)) t = 'd';
         else if (!strncmp(n, "xform", 5)) t = 't';
+        else if (!strncmp(n, "xf_filt", 7) || !strncmp(n, "err_xform", 9)) t = 't';
+        else if (!strncmp(n, "tj_seq", 6) || !strncmp(n, "err_comp", 8) || !strncmp(n, "err_encyuv", 10)) t = 'c';
+        else if (!strncmp(n, "err_load", 8)) { t = 'c'; inner = 'c'; }
+        else if (!strncmp(n, "err_save", 8)) { t = 'd'; inner = 'd'; }
+        else if (!strncmp(n, "err_", 4)) t = 'd';
         else if (!strncmp(n, "load", 4)) { t = 'c'; inner = 'c'; }
         else if (!strncmp(n, "save", 4)) { t = 'd'; inner = 'd'; }
-        printf("scn %s %c %c\n", n, t, inner);
+        { char a[64]; int q; snprintf(a, sizeof(a), "%s", scns[i].arg[0] ? scns[i].arg : "-"); for (q = 0; a[q]; q++) if (a[q] == ' ') a[q] = ','; printf("scn %s %c %c %s\n", n, t, inner, a); }
       }
       printf("endlist\n");
     } else if (!strcmp(cmd, "run")) {
@@ -881,6 +1353,8 @@ int main(int argc, char **argv)
       else if (!strcmp(a, "load")) { sscanf(line, "%*s %*s %63s %ld %ld %ld", b, &x, &y, &z); limit_load(b, x, y, (int)z); }
       else if (!strcmp(a, "scan")) { sscanf(line, "%*s %*s %ld %ld %63s", &x, &y, b); limit_scan((int)x, (int)y, b); }
       else if (!strcmp(a, "mem")) { sscanf(line, "%*s %*s %ld %ld %ld %63s", &x, &y, &z, b); limit_mem((int)x, (int)y, (int)z, b); }
+      else if (!strcmp(a, "vmem")) { long ss = 420, full = 0; long long M = 0; sscanf(line, "%*s %*s %63s %ld %ld %ld %lld %ld", b, &x, &y, &ss, &M, &full); limit_vmem(b, (int)x, (int)y, (int)ss, M, (int)full); }
+      else if (!strcmp(a, "wmem")) { long ss = 420; sscanf(line, "%*s %*s %ld %ld %ld %ld %63s", &x, &y, &z, &ss, b); limit_wmem((int)x, (int)y, (int)z, (int)ss, b); }
       else printf("limit ?\n");
       (void)c;
     } else printf("?\n");
